@@ -2865,6 +2865,8 @@ class DRoc(Output):
     def _plot_core(self, data):
         if self.thresholds is None or len(self.thresholds) != 1:
             verif.util.error("DRoc plot needs a single threshold (use -r)")
+        if re.compile(".*within.*").match(self.bin_type):
+            verif.util.error("A 'within' bin type cannot be used in this diagram")
         threshold = self.thresholds[0]   # Observation threshold
 
         if self._doClassic:
@@ -3176,6 +3178,8 @@ class Performance(Output):
     def _plot_core(self, data):
         if self.thresholds is None or len(self.thresholds) != 1:
             verif.util.error("Performance plot needs a single threshold (use -r)")
+        if re.compile(".*within.*").match(self.bin_type):
+            verif.util.error("A 'within' bin type cannot be used in this diagram")
         threshold = self.thresholds[0]   # Observation threshold
         labels = data.get_legend()
         F = data.num_inputs
@@ -3575,6 +3579,8 @@ class BsDecomp(Output):
     def _plot_core(self, data):
         if self.thresholds is None or len(self.thresholds) != 1:
             verif.util.error("Murphy plot needs a single threshold (use -r)")
+        if re.compile(".*within.*").match(self.bin_type):
+            verif.util.error("A 'within' bin type cannot be used in this diagram")
 
         bsrel = verif.metric.BsRel()
         bsres = verif.metric.BsRes()
